@@ -209,3 +209,310 @@ Proof.
   intros Hc H. apply gbp_at_in_bounds in H; [|assumption]. unfold zlen in H.
   rewrite firstn_length, skipn_length. lia.
 Qed.
+
+(* ====================================================================================================== *)
+(* (B) ThriftDom.load: the DOM load walking arbitrary bytes                                                 *)
+(* ====================================================================================================== *)
+
+(* ---- elementary reads ---- *)
+Lemma dec_count_len bs n r : dec_count bs = Some (n, r) ->
+  (length bs = 4 + length r)%nat /\ (n <= length r)%nat /\ suffix_of r bs.
+Proof.
+  unfold dec_count. destruct (take 4 bs) as [[x r1]|] eqn:E; [|discriminate]. cbv zeta.
+  destruct (dec_int x <? 0) eqn:E1; [discriminate|]. destruct (dec_int x >? zlen r1) eqn:E2; [discriminate|].
+  intros H; inversion H; subst. apply Z.ltb_ge in E1. rewrite Z.gtb_ltb in E2. apply Z.ltb_ge in E2.
+  pose proof (take_suffix _ _ _ _ E). apply take_len in E. unfold zlen in E2. repeat split; try assumption; lia.
+Qed.
+
+Lemma dec_scalar_shrinks t bs v r : dec_scalar t bs = Some (v, r) -> (length r < length bs)%nat.
+Proof.
+  unfold dec_scalar.
+  destruct (t =? T_BOOL). { destruct bs; [discriminate|]. intros H; inversion H; subst. cbn [length]. lia. }
+  destruct (t =? T_BYTE). { destruct (take 1 bs) as [[x r1]|] eqn:E; [|discriminate]. intros H; inversion H; subst. apply take_len in E. lia. }
+  destruct (t =? T_I16). { destruct (take 2 bs) as [[x r1]|] eqn:E; [|discriminate]. intros H; inversion H; subst. apply take_len in E. lia. }
+  destruct (t =? T_I32). { destruct (take 4 bs) as [[x r1]|] eqn:E; [|discriminate]. intros H; inversion H; subst. apply take_len in E. lia. }
+  destruct (t =? T_I64). { destruct (take 8 bs) as [[x r1]|] eqn:E; [|discriminate]. intros H; inversion H; subst. apply take_len in E. lia. }
+  destruct (t =? T_DOUBLE). { destruct (take 8 bs) as [[x r1]|] eqn:E; [|discriminate]. intros H; inversion H; subst. apply take_len in E. lia. }
+  destruct (t =? T_STRING); [|discriminate].
+  destruct (take 4 bs) as [[x r1]|] eqn:E; [|discriminate]. cbv zeta.
+  destruct (dec_int x <? 0); [discriminate|].
+  destruct (take (Z.to_nat (dec_int x)) r1) as [[s r2]|] eqn:E2; [|discriminate].
+  intros H; inversion H; subst. apply take_len in E. apply take_len in E2. lia.
+Qed.
+
+(* a map key takes at least one byte, and what follows it is a suffix *)
+Lemma read_key_suffix kt bs k r : read_key kt bs = Some (k, r) -> suffix_of r bs /\ (length r < length bs)%nat.
+Proof.
+  unfold read_key. destruct (kt =? T_STRING).
+  { destruct (dec_scalar T_STRING bs) as [[v r1]|] eqn:E; [|discriminate]. destruct v; try discriminate.
+    intros H; inversion H; subst. split; [eapply dec_scalar_suffix|eapply dec_scalar_shrinks]; eassumption. }
+  destruct (is_int_type kt).
+  { destruct (dec_scalar kt bs) as [[v r1]|] eqn:E; [|discriminate]. destruct (int_of_key v); [|discriminate].
+    intros H; inversion H; subst. split; [eapply dec_scalar_suffix|eapply dec_scalar_shrinks]; eassumption. }
+  destruct (skip_go kt bs) as [r1|] eqn:E; [|discriminate].
+  intros H; inversion H; subst. split; [eapply skip_go_suffix_of|eapply skip_go_shrinks]; eassumption.
+Qed.
+
+(* ---- what a loaded tree allocates ---- *)
+(* number of PathNodes *)
+Fixpoint tree_nodes (x : tree) : nat :=
+  match x with T _ _ _ _ next => S (fold_right (fun kc m => (tree_nodes (snd kc) + m)%nat) O next) end.
+Definition kids_nodes (cs : list (pkey * tree)) : nat := fold_right (fun kc m => (tree_nodes (snd kc) + m)%nat) O cs.
+
+(* a property of every node of a tree *)
+Fixpoint tree_all (Q : tree -> Prop) (x : tree) : Prop :=
+  match x with T _ _ _ _ next => Q x /\ fold_right (fun kc acc => tree_all Q (snd kc) /\ acc) True next end.
+Definition kids_all (Q : tree -> Prop) (cs : list (pkey * tree)) : Prop :=
+  fold_right (fun kc acc => tree_all Q (snd kc) /\ acc) True cs.
+
+Lemma tree_all_here Q x : tree_all Q x -> Q x.
+Proof. destruct x. intros [H _]. exact H. Qed.
+
+Lemma tree_all_kids Q x : tree_all Q x -> kids_all Q (t_next x).
+Proof. destruct x. intros [_ H]. exact H. Qed.
+
+Lemma kids_all_Forall Q cs : kids_all Q cs <-> Forall (fun kc => tree_all Q (snd kc)) cs.
+Proof.
+  induction cs as [|kc cs IH]; cbn [kids_all fold_right]; split; intros H.
+  - constructor. - exact I.
+  - destruct H as [Ha Hb]. constructor; [assumption|]. apply IH. exact Hb.
+  - inversion H; subst. split; [assumption|]. apply IH. assumption.
+Qed.
+
+Lemma tree_all_impl (Q Q' : tree -> Prop) : (forall y, Q y -> Q' y) -> forall x, tree_all Q x -> tree_all Q' x.
+Proof.
+  intros HQ. fix IH 1. intros [t et kt raw next]. cbn [tree_all]. intros [H1 H2]. split; [apply HQ; exact H1|].
+  clear H1. induction next as [|kc next IHn]; cbn [fold_right] in *; [exact I|].
+  destruct H2 as [Ha Hb]. split; [apply IH; exact Ha|apply IHn; exact Hb].
+Qed.
+
+(* raw is a contiguous slice of the buffer: no byte of it comes from elsewhere *)
+Definition slice_of (raw buf : list Z) : Prop := exists a k, raw = firstn k (skipn a buf).
+
+Lemma slice_of_length raw buf : slice_of raw buf -> (length raw <= length buf)%nat.
+Proof. intros (a & k & ->). rewrite firstn_length, skipn_length. lia. Qed.
+
+Lemma slice_of_nil buf : slice_of [] buf.
+Proof. exists 0%nat, 0%nat. reflexivity. Qed.
+
+Lemma slice_of_prefix b buf k : suffix_of b buf -> slice_of (firstn k b) buf.
+Proof. intros [a ->]. exists a, k. reflexivity. Qed.
+
+(* one unfolding of handleChild (same statement as ThriftDomProofs.load_child_eq; restated to keep this file independent) *)
+Lemma load_child_unfold d rec ns t bs : load_child d rec ns t bs =
+  if rec && is_container t then
+    match d with
+    | O => None
+    | S d' =>
+      if ns then
+        match scan (load_child d' rec ns) t bs with
+        | Some (et, kt, cs, rest) => Some (T t et kt [] cs, rest)
+        | None => None
+        end
+      else
+        match skip_go t bs with
+        | None => None
+        | Some rest0 =>
+          let raw := firstn (length bs - length rest0) bs in
+          match scan (load_child d' rec ns) t bs with
+          | Some (et, kt, cs, rest) => Some (T t (hdr_et t raw) (hdr_kt t raw) raw cs, rest)
+          | None => None
+          end
+        end
+    end
+  else
+    match skip_go t bs with
+    | None => None
+    | Some rest => Some (leaf_of t (firstn (length bs - length rest) bs), rest)
+    end.
+Proof. destruct d; reflexivity. Qed.
+
+(* ---- B1 + B3 in one induction: relative to a ROOT buffer of which every buffer met is a suffix ---- *)
+Section LoadRoot.
+  Variable root : list Z.
+  Definition raw_inside (x : tree) : Prop := tree_all (fun y => slice_of (t_raw y) root) x.
+
+  (* what one handleChild guarantees *)
+  Definition child_good (child : Z -> list Z -> option (tree * list Z)) : Prop :=
+    forall t b x r, suffix_of b root -> child t b = Some (x, r) ->
+      suffix_of r b /\ (length r < length b)%nat /\ (tree_nodes x <= length b - length r)%nat /\ raw_inside x.
+
+  Section Loops.
+    Variable child : Z -> list Z -> option (tree * list Z).
+    Hypothesis child_ok : child_good child.
+
+    Lemma scan_fields_good : forall f bs cs r, suffix_of bs root -> scan_fields child f bs = Some (cs, r) ->
+      suffix_of r bs /\ (length r < length bs)%nat /\ (kids_nodes cs + 1 <= length bs - length r)%nat /\
+      kids_all (fun y => slice_of (t_raw y) root) cs.
+    Proof.
+      induction f as [|f IH]; intros bs cs r Hroot; cbn [scan_fields]; [discriminate|].
+      destruct bs as [|t r0]; [discriminate|].
+      destruct (t =? 0).
+      { intros H; inversion H; subst. cbn [length kids_nodes kids_all fold_right].
+        split; [apply suffix_cons, suffix_refl|]. repeat split; lia. }
+      destruct (take 2 r0) as [[idb r2]|] eqn:E2; [|discriminate].
+      pose proof (take_suffix _ _ _ _ E2) as S2. apply take_len in E2.
+      assert (R2 : suffix_of r2 root).
+      { exact (suffix_trans _ _ _ S2 (suffix_trans _ _ _ (suffix_cons t _ _ (suffix_refl r0)) Hroot)). }
+      destruct (child t r2) as [[c r3]|] eqn:E3; [|discriminate].
+      destruct (child_ok _ _ _ _ R2 E3) as (S3 & L3 & N3 & A3).
+      assert (R3 : suffix_of r3 root) by exact (suffix_trans _ _ _ S3 R2).
+      destruct (scan_fields child f r3) as [[cs' r4]|] eqn:E4; [|discriminate].
+      destruct (IH _ _ _ R3 E4) as (S4 & L4 & N4 & A4).
+      intros H; inversion H; subst. cbn [length kids_nodes kids_all fold_right snd] in *. fold (kids_nodes cs') in *.
+      split. { apply suffix_cons. exact (suffix_trans _ _ _ S4 (suffix_trans _ _ _ S3 S2)). }
+      split; [lia|]. split; [lia|]. split; assumption.
+    Qed.
+
+    Lemma scan_elems_good : forall n i et bs cs r, suffix_of bs root -> scan_elems child n i et bs = Some (cs, r) ->
+      suffix_of r bs /\ (kids_nodes cs <= length bs - length r)%nat /\ kids_all (fun y => slice_of (t_raw y) root) cs.
+    Proof.
+      induction n as [|n IH]; intros i et bs cs r Hroot; cbn [scan_elems].
+      - intros H; inversion H; subst. cbn [kids_nodes kids_all fold_right]. split; [apply suffix_refl|]. split; [lia|exact I].
+      - destruct (child et bs) as [[c r1]|] eqn:E1; [|discriminate].
+        destruct (child_ok _ _ _ _ Hroot E1) as (S1 & L1 & N1 & A1).
+        assert (R1 : suffix_of r1 root) by exact (suffix_trans _ _ _ S1 Hroot).
+        destruct (scan_elems child n (i + 1) et r1) as [[cs' r2]|] eqn:E2; [|discriminate].
+        destruct (IH _ _ _ _ _ R1 E2) as (S2 & N2 & A2). pose proof (suffix_length _ _ S2) as LL.
+        intros H; inversion H; subst. cbn [kids_nodes kids_all fold_right snd] in *. fold (kids_nodes cs') in *.
+        split; [exact (suffix_trans _ _ _ S2 S1)|]. split; [lia|]. split; assumption.
+    Qed.
+
+    Lemma scan_pairs_good : forall n kt et bs cs r, suffix_of bs root -> scan_pairs child n kt et bs = Some (cs, r) ->
+      suffix_of r bs /\ (kids_nodes cs <= length bs - length r)%nat /\ kids_all (fun y => slice_of (t_raw y) root) cs.
+    Proof.
+      induction n as [|n IH]; intros kt et bs cs r Hroot; cbn [scan_pairs].
+      - intros H; inversion H; subst. cbn [kids_nodes kids_all fold_right]. split; [apply suffix_refl|]. split; [lia|exact I].
+      - destruct (read_key kt bs) as [[k r0]|] eqn:E0; [|discriminate]. apply read_key_suffix in E0. destruct E0 as [S0 L0].
+        assert (R0 : suffix_of r0 root) by exact (suffix_trans _ _ _ S0 Hroot).
+        destruct (child et r0) as [[c r1]|] eqn:E1; [|discriminate].
+        destruct (child_ok _ _ _ _ R0 E1) as (S1 & L1 & N1 & A1).
+        assert (R1 : suffix_of r1 root) by exact (suffix_trans _ _ _ S1 R0).
+        destruct (scan_pairs child n kt et r1) as [[cs' r2]|] eqn:E2; [|discriminate].
+        destruct (IH _ _ _ _ _ R1 E2) as (S2 & N2 & A2). pose proof (suffix_length _ _ S2) as LL.
+        intros H; inversion H; subst. cbn [kids_nodes kids_all fold_right snd] in *. fold (kids_nodes cs') in *.
+        split; [exact (suffix_trans _ _ _ S2 (suffix_trans _ _ _ S1 S0))|]. split; [lia|]. split; assumption.
+    Qed.
+
+    (* scanChildren: the header / STOP byte pays for the node itself *)
+    Lemma scan_good t bs et kt cs r : suffix_of bs root -> scan child t bs = Some (et, kt, cs, r) ->
+      suffix_of r bs /\ (length r < length bs)%nat /\ (kids_nodes cs + 1 <= length bs - length r)%nat /\
+      kids_all (fun y => slice_of (t_raw y) root) cs.
+    Proof.
+      intros Hroot. unfold scan. destruct (t =? T_STRUCT).
+      { destruct (scan_fields child (S (length bs)) bs) as [[cs' r']|] eqn:E; [|discriminate].
+        intros H; inversion H; subst. eapply scan_fields_good; eassumption. }
+      destruct ((t =? T_LIST) || (t =? T_SET)).
+      { destruct bs as [|et0 r0]; [discriminate|].
+        destruct (dec_count r0) as [[n r2]|] eqn:Ec; [|discriminate]. apply dec_count_len in Ec. destruct Ec as (Lc & _ & Sc).
+        assert (R2 : suffix_of r2 root).
+        { exact (suffix_trans _ _ _ Sc (suffix_trans _ _ _ (suffix_cons et0 _ _ (suffix_refl r0)) Hroot)). }
+        destruct (scan_elems child n 0 et0 r2) as [[cs' r3]|] eqn:E; [|discriminate].
+        destruct (scan_elems_good _ _ _ _ _ _ R2 E) as (S3 & N3 & A3). pose proof (suffix_length _ _ S3) as LL.
+        intros H; inversion H; subst. cbn [length].
+        split; [apply suffix_cons; exact (suffix_trans _ _ _ S3 Sc)|]. split; [lia|]. split; [lia|assumption]. }
+      destruct (t =? T_MAP); [|discriminate].
+      destruct bs as [|kt0 [|et0 r0]]; try discriminate.
+      destruct (valid_type kt0 && valid_type et0); [|discriminate].
+      destruct (dec_count r0) as [[n r2]|] eqn:Ec; [|discriminate]. apply dec_count_len in Ec. destruct Ec as (Lc & _ & Sc).
+      assert (R2 : suffix_of r2 root).
+      { exact (suffix_trans _ _ _ Sc (suffix_trans _ _ _ (suffix_cons kt0 _ _ (suffix_cons et0 _ _ (suffix_refl r0))) Hroot)). }
+      destruct (scan_pairs child n kt0 et0 r2) as [[cs' r3]|] eqn:E; [|discriminate].
+      destruct (scan_pairs_good _ _ _ _ _ _ R2 E) as (S3 & N3 & A3). pose proof (suffix_length _ _ S3) as LL.
+      intros H; inversion H; subst. cbn [length].
+      split; [do 2 apply suffix_cons; exact (suffix_trans _ _ _ S3 Sc)|]. split; [lia|]. split; [lia|assumption].
+    Qed.
+  End Loops.
+
+  Theorem load_child_good : forall d rec ns, child_good (load_child d rec ns).
+  Proof.
+    induction d as [|d IH]; intros rec ns t bs x r Hroot; rewrite load_child_unfold.
+    - destruct (rec && is_container t); [discriminate|].
+      destruct (skip_go t bs) as [rest|] eqn:E; [|discriminate]. intros H; inversion H; subst.
+      pose proof (skip_go_shrinks _ _ _ E). split; [eapply skip_go_suffix_of; eassumption|]. split; [assumption|].
+      unfold leaf_of, raw_inside. cbn [tree_nodes tree_all fold_right t_raw]. split; [lia|]. split; [|exact I].
+      apply slice_of_prefix. assumption.
+    - destruct (rec && is_container t).
+      + destruct ns.
+        * destruct (scan (load_child d rec true) t bs) as [[[[et kt] cs] rest]|] eqn:E; [|discriminate].
+          destruct (scan_good _ (IH rec true) _ _ _ _ _ _ Hroot E) as (S1 & L1 & N1 & A1).
+          intros H; inversion H; subst. split; [assumption|]. split; [assumption|].
+          unfold raw_inside. cbn [tree_nodes tree_all t_raw]. fold (kids_nodes cs).
+          split; [lia|]. split; [apply slice_of_nil|exact A1].
+        * destruct (skip_go t bs) as [rest0|] eqn:E0; [|discriminate]. cbv zeta.
+          destruct (scan (load_child d rec false) t bs) as [[[[et kt] cs] rest]|] eqn:E; [|discriminate].
+          destruct (scan_good _ (IH rec false) _ _ _ _ _ _ Hroot E) as (S1 & L1 & N1 & A1).
+          intros H; inversion H; subst. split; [assumption|]. split; [assumption|].
+          unfold raw_inside. cbn [tree_nodes tree_all t_raw]. fold (kids_nodes cs).
+          split; [lia|]. split; [apply slice_of_prefix; assumption|exact A1].
+      + destruct (skip_go t bs) as [rest|] eqn:E; [|discriminate]. intros H; inversion H; subst.
+        pose proof (skip_go_shrinks _ _ _ E). split; [eapply skip_go_suffix_of; eassumption|]. split; [assumption|].
+        unfold leaf_of, raw_inside. cbn [tree_nodes tree_all fold_right t_raw]. split; [lia|]. split; [|exact I].
+        apply slice_of_prefix. assumption.
+  Qed.
+End LoadRoot.
+
+(* ---- B1: handleChild returns a strictly shorter suffix ---- *)
+Theorem load_child_suffix d rec ns t bs x r : load_child d rec ns t bs = Some (x, r) ->
+  suffix_of r bs /\ (length r < length bs)%nat.
+Proof.
+  intros H. destruct (load_child_good bs d rec ns t bs x r (suffix_refl bs) H) as (S1 & L1 & _). split; assumption.
+Qed.
+
+Corollary load_child_cursor d rec ns t bs x r : load_child d rec ns t bs = Some (x, r) ->
+  exists c, (1 <= c <= length bs)%nat /\ r = skipn c bs.
+Proof. intros H. apply load_child_suffix in H. destruct H. apply suffix_cursor; assumption. Qed.
+
+Lemma load_child_le d rec ns t bs x r : load_child d rec ns t bs = Some (x, r) -> (length r <= length bs)%nat.
+Proof. intros H. apply load_child_suffix in H. lia. Qed.
+
+(* the loops of scanChildren with the real handleChild *)
+Corollary scan_load_suffix d rec ns t bs et kt cs r : scan (load_child d rec ns) t bs = Some (et, kt, cs, r) ->
+  suffix_of r bs /\ (length r < length bs)%nat.
+Proof.
+  intros H. destruct (scan_good bs _ (load_child_good bs d rec ns) _ _ _ _ _ _ (suffix_refl bs) H) as (S1 & L1 & _).
+  split; assumption.
+Qed.
+
+(* ---- B3: allocation ---- *)
+(* one PathNode per consumed byte at most *)
+Theorem load_child_nodes_linear d rec ns t bs x r : load_child d rec ns t bs = Some (x, r) ->
+  (tree_nodes x <= length bs - length r)%nat.
+Proof.
+  intros H. destruct (load_child_good bs d rec ns t bs x r (suffix_refl bs) H) as (_ & _ & N1 & _). assumption.
+Qed.
+
+(* every raw slice kept in the tree is a contiguous slice of the buffer handed in *)
+Theorem load_child_raw_inside d rec ns t bs x r : load_child d rec ns t bs = Some (x, r) ->
+  tree_all (fun y => slice_of (t_raw y) bs) x.
+Proof.
+  intros H. destruct (load_child_good bs d rec ns t bs x r (suffix_refl bs) H) as (_ & _ & _ & A1). assumption.
+Qed.
+
+Corollary load_child_raw_length d rec ns t bs x r : load_child d rec ns t bs = Some (x, r) ->
+  tree_all (fun y => (length (t_raw y) <= length bs)%nat) x.
+Proof.
+  intros H. apply load_child_raw_inside in H. revert H. apply tree_all_impl. intros y. apply slice_of_length.
+Qed.
+
+(* Load of a whole buffer: at most one node per byte (the root included), all raw slices inside the buffer *)
+Theorem load_nodes_linear rec ns t bs x : load rec ns t bs = Some x -> (tree_nodes x <= length bs)%nat.
+Proof.
+  unfold load. destruct (scan (load_child (length bs) rec ns) t bs) as [[[[et kt] cs] rest]|] eqn:E; [|discriminate].
+  destruct (scan_good bs _ (load_child_good bs (length bs) rec ns) _ _ _ _ _ _ (suffix_refl bs) E) as (_ & _ & N1 & _).
+  intros H; inversion H; subst. cbn [tree_nodes]. fold (kids_nodes cs). lia.
+Qed.
+
+Theorem load_raw_inside rec ns t bs x : load rec ns t bs = Some x -> tree_all (fun y => slice_of (t_raw y) bs) x.
+Proof.
+  unfold load. destruct (scan (load_child (length bs) rec ns) t bs) as [[[[et kt] cs] rest]|] eqn:E; [|discriminate].
+  destruct (scan_good bs _ (load_child_good bs (length bs) rec ns) _ _ _ _ _ _ (suffix_refl bs) E) as (_ & _ & _ & A1).
+  intros H; inversion H; subst. cbn [tree_all t_raw]. split; [|exact A1].
+  exists 0%nat, (length bs). cbn [skipn]. symmetry. apply firstn_all.
+Qed.
+
+Corollary load_raw_length rec ns t bs x : load rec ns t bs = Some x ->
+  tree_all (fun y => (length (t_raw y) <= length bs)%nat) x.
+Proof.
+  intros H. apply load_raw_inside in H. revert H. apply tree_all_impl. intros y. apply slice_of_length.
+Qed.
